@@ -145,3 +145,110 @@ func substBitFacts(b *bv, facts map[string]bool) *bv {
 	}
 	return out
 }
+
+// checkLatin1Exact: the 8-bit ASCII + Latin-1 decoder is a copy: on every success path the
+// string returned is the conversion of exactly the first c bytes of the input — the window
+// b[0:c] itself, not something computed from it (trimmed, filtered, re-encoded) — and the
+// number of bytes consumed is c. Engine E1 in bits mode: the returned string still carries
+// the identity of the input buffer, offset 0 and length c are entailed.
+func checkLatin1Exact(c *Ctx, r *Report, f *ssa.Function) {
+	r.Rule("latin1-is-a-copy", "the 8-bit ASCII + Latin-1 decoder returns exactly string(b[0:c]) and consumes c bytes on every success path", 1)
+	name := c.FnName(f)
+	if len(f.Params) != 2 {
+		r.Unk(name+"|copy of b[0:c]", f.Pos(), "unexpected decoder signature")
+		return
+	}
+	e := newLenflow(c, 4)
+	e.bits = true
+	e.elemLoads = map[Sym]lfElemRef{}
+	e.onStore = func(st *lfState, kind, name, val string, pos token.Pos, b *bv) {}
+	nOK, bad := 0, ""
+	var cLin Lin
+	e.onReturn = func(st *lfState, rets []lfVal) {
+		if len(rets) != 3 {
+			bad = "unexpected result arity"
+			return
+		}
+		// success paths only
+		if ev, ok := rets[2].(vNilable); ok {
+			if ev.Nil == 2 {
+				return
+			}
+			if ev.Nil == 0 {
+				if isNil, has := st.decided[-ev.ID]; has && !isNil {
+					return
+				}
+			}
+		} else if _, isPtr := rets[2].(vPtr); !isPtr {
+			return
+		}
+		sv, ok := rets[0].(vSlice)
+		if !ok || sv.Org == nil || sv.Org.Name != "d" {
+			bad = "the string returned is not a window on the input bytes (it was computed from them)"
+			return
+		}
+		if !entails(st.cons, geq(sv.Org.Off, linConst(0))) || !entails(st.cons, leq(sv.Org.Off, linConst(0))) {
+			bad = "the string returned does not start at the first input byte"
+			return
+		}
+		if !entails(st.cons, geq(sv.Len, cLin)) || !entails(st.cons, leq(sv.Len, cLin)) {
+			bad = "the string returned is not c bytes long"
+			return
+		}
+		n, isInt := rets[1].(vInt)
+		if !isInt || !entails(st.cons, geq(n.E, cLin)) || !entails(st.cons, leq(n.E, cLin)) {
+			bad = "the number of bytes consumed is not c"
+			return
+		}
+		nOK++
+	}
+	e.runEntry(f, func(fr *lfFrame, st *lfState) {
+		if cv, ok := fr.env[f.Params[1]].(vInt); ok {
+			cLin = cv.E
+		}
+	})
+	if e.budgetHit {
+		r.Unk(name+"|copy of b[0:c]", f.Pos(), "budget exhausted")
+		return
+	}
+	if bad == "" && nOK == 0 {
+		bad = "no success path found"
+	}
+	r.Check(bad == "", name+"|copy of b[0:c]", f.Pos(), fmt.Sprintf("string(b[0:c]), c consumed, on %d success paths", nOK), "the Latin-1 decoder does not return the first c input bytes unchanged: "+bad)
+}
+
+// stringDecoderTable: type/length encoding → decoder function, read from the package-level
+// StringEncoding → StringDecoder table.
+func stringDecoderTable(c *Ctx) (map[int64]*ssa.Function, *ssa.Global) {
+	ir := newInitReader(c)
+	v, g := ir.globalByType("pkg/ipmi", "stringEncodingDecoders", "map["+modPath+"/pkg/ipmi.StringEncoding]"+modPath+"/pkg/ipmi.StringDecoder")
+	if g == nil {
+		return nil, nil
+	}
+	got := map[int64]*ssa.Function{}
+	for _, e := range v.Entries {
+		if k, ok := e.K.Int(); ok && e.V.Kind == "func" {
+			got[k] = e.V.Func
+		}
+	}
+	return got, g
+}
+
+// checkLatin1Decoders applies checkLatin1Exact to the decoder(s) the table selects for the
+// 8-bit encodings (3: ASCII + Latin-1; 0: "Unicode", decoded the same way).
+func checkLatin1Decoders(c *Ctx, r *Report) {
+	got, g := stringDecoderTable(c)
+	if g == nil || got[3] == nil {
+		r.Rule("latin1-is-a-copy", "", 1)
+		r.Lost("ipmi string encoding decoder table / 8-bit decoder")
+		return
+	}
+	done := map[*ssa.Function]bool{}
+	for _, k := range []int64{3, 0} {
+		if f := got[k]; f != nil && !done[f] && (k == 3 || classifyStringDecoder(f) == "latin1") {
+			done[f] = true
+			r.Fn(c.FnName(f))
+			checkLatin1Exact(c, r, f)
+		}
+	}
+}
